@@ -1,9 +1,10 @@
 #!/bin/bash
 # developer tool: run every registered check of a tier sequentially, print timing and exit codes
+# usage: runall.sh quick|thorough ["05 17 20"]   (optional: which properties, in which order)
 T=${1:-quick}
 HERE="$(cd "$(dirname "${BASH_SOURCE[0]}")" && pwd)"
 cd "$HERE"
-for i in $(seq -w 1 20); do
+for i in ${2:-$(seq -w 1 20)}; do
   s=$(date +%s)
   ./check C$i --tier $T > /tmp/runall.C$i.$T.log 2>&1; rc=$?
   e=$(date +%s)
